@@ -326,10 +326,35 @@ def _r23(model, rep):
         for ed in (0, 2):
             for fa in (0, 3):
                 for no in (0, 1):
+                  for ecomp in (dim, 2 if dim != 2 else 3):
                     counts = {"nodal": no, "edge": ed, "facet": fa,
                               "interior": 2}
-                    r = run_dofs(model, dim, counts, nrows[dim])
-                    cfg = f"dim={dim},nodal={no},edge={ed},facet={fa}"
+                    r = run_dofs(model, dim, counts, nrows[dim],
+                                 elem_dim=ecomp)
+                    cfg = f"dim={dim},nodal={no},edge={ed},facet={fa}" + (
+                        "" if ecomp == dim else f",element.dim={ecomp}")
+                    # which entity kinds carry DOFs is a matter of the
+                    # *cells*: edges exist as separate entities in 3-D,
+                    # facets other than vertices from 2-D on.  element.dim
+                    # of a vector element is its number of components.
+                    for k in ("nodal", "edge", "facet"):
+                        must = counts[k] > 0 and (
+                            k == "nodal" or (k == "edge" and dim == 3)
+                            or (k == "facet" and dim >= 2))
+                        has = isinstance(r.blocks[k], NumBlock)
+                        if must and not has:
+                            rep.fail(R2, FD, "Dofs.__init__",
+                                     f"exists[{k}|{cfg}]",
+                                     f"an element with {counts[k]} {k} "
+                                     f"DOF(s) on {dim}-dimensional cells "
+                                     f"gets no {k} block (element.dim = "
+                                     f"{ecomp} is the number of components "
+                                     f"of a vector element, not the "
+                                     f"dimension of the cells): those DOFs "
+                                     f"are silently dropped", fn.lineno)
+                        elif must:
+                            rep.ok(R2, f"exists[{k}|{cfg}]",
+                                   f"{k} DOFs numbered")
                     # R2: block arithmetic and chaining
                     off = Poly()
                     chain = []
@@ -825,6 +850,12 @@ _FACET_BLK = """        if counts[2] > 0:
             ns += sum([tmp for j in range(int(counts[2] / len(tmp)))], [])
 """
 MUTANTS = [
+    ("edge DOFs exist when the element has three components",
+     ("skfem/assembly/dofs.py",
+      "        if topo.dim() == 3 and element.edge_dofs > 0:\n"
+      "            self.edge_dofs = np.reshape(",
+      "        if element.dim == 3 and element.edge_dofs > 0:\n"
+      "            self.edge_dofs = np.reshape("), "C04-R2"),
     ("basis reuses the mesh's cached numbering for instances of its "
      "element class",
      ("skfem/assembly/basis/abstract_basis.py",
